@@ -2553,6 +2553,12 @@ class SSHConnection(SSHPacketHandler, asyncio.Protocol):
             # pylint: disable=no-member
             await cast(SSHServerConnection, self).reload_config()
 
+            if username != self._username or self._auth_complete or \
+                    not self._owner:
+                # Superseded by a request for another user while the
+                # config was being reloaded
+                return
+
             result = cast(SSHServer, self._owner).begin_auth(username)
 
             if inspect.isawaitable(result):
@@ -5945,10 +5951,17 @@ class SSHServerConnection(SSHConnection):
             self._peer_host, _ = await self._loop.getnameinfo(
                 (self._peer_addr, self._peer_port), socket.NI_NUMERICSERV)
 
+        username = self._username
+
         options = await SSHServerConnectionOptions.construct(
             options=self._options, reload=True, accept_addr=self._local_addr,
-            accept_port=self._local_port, username=self._username,
+            accept_port=self._local_port, username=username,
             client_host=self._peer_host, client_addr=self._peer_addr)
+
+        if username != self._username:
+            # A later auth request changed the user while the config was
+            # being evaluated; its own reload provides the options
+            return
 
         self._options = options
 
